@@ -20,6 +20,7 @@ import (
 	"strings"
 	"sync"
 	"testing"
+	"time"
 
 	"pgregory.net/rapid"
 )
@@ -452,6 +453,51 @@ func Enumerate[C any](t *testing.T, h *H, test string, n int, at func(i int) C, 
 		if err := guard(prop, c); err != nil {
 			p := h.SaveReplay(test, c, err.Error())
 			t.Fatalf("VERIF-VIOLATION property=%s case=%s\n%v", h.ID, p, err)
+		}
+	}
+}
+
+// ---------------------------------------------------------------------------
+// Hang watchdog: totality properties mark the case in progress; a background
+// goroutine reports a violation (and ends the process) when one case runs for
+// longer than the limit. The limit is tens of seconds for microsecond work.
+
+var (
+	watchMu    sync.Mutex
+	watchStart time.Time
+	watchCase  any
+	watchH     *H
+	watchTest  string
+	watchOnce  sync.Once
+)
+
+// Begin marks the start of a case of a totality property.
+func (h *H) Begin(test string, c any) {
+	watchOnce.Do(func() { go watchdog() })
+	watchMu.Lock()
+	watchStart, watchCase, watchH, watchTest = time.Now(), c, h, test
+	watchMu.Unlock()
+}
+
+// End marks the end of the case.
+func (h *H) End() {
+	watchMu.Lock()
+	watchCase, watchH = nil, nil
+	watchMu.Unlock()
+}
+
+func watchdog() {
+	limit := time.Duration(EnvInt("VERIF_HANG_S", 30)) * time.Second
+	for {
+		time.Sleep(500 * time.Millisecond)
+		watchMu.Lock()
+		h, c, test, start := watchH, watchCase, watchTest, watchStart
+		watchMu.Unlock()
+		if h != nil && time.Since(start) > limit {
+			p := h.SaveReplay(test, c, fmt.Sprintf("case did not finish within %v (hang)", limit))
+			fmt.Printf("VERIF-VIOLATION property=%s case=%s\ncase did not finish within %v\n", h.ID, p, limit)
+			Flush()
+			os.Exit(1)
 		}
 	}
 }
